@@ -402,21 +402,34 @@ def _is_body_brace(src: str, j: int) -> bool:
 # every printed tuple so that the engines can also read the STAT lines (non-vacuity counters)
 # --------------------------------------------------------------------------------------------
 
-def judge_all(chk, module: str, records: list, *, consts: dict | None = None, tag="judge", chunk=250, timeout=1200,
-              count=True, heap="6g"):
+def judge_all(chk, module: str, records: list, *, consts: dict | None = None, tag="judge", chunk=700, timeout=1200,
+              count=True, heap="6g", coverage_probe=True):
+    """TLC evaluates the predicate spec `module` on every record.  `-coverage` makes TLC several times slower, so
+    the non-vacuity run with coverage is done on the first few records only (the action `Next` must be taken);
+    that every record was judged is the POSTCONDITION AllConsumed of every run."""
     from engines import projlib
     printed = []
+    if coverage_probe and records:
+        path = chk.work / f"{tag}-cov.ndjson"
+        vlib.write_ndjson(path, records[:3])
+        cfg = chk.work / f"{Path(module).stem}-{tag}-cov.cfg"
+        cfg.write_text(projlib.cfg_from_consts(consts or {}, "POSTCONDITION AllConsumed\n"))
+        r = vlib.tlc(projlib.SP / module, cfg, workers=1, timeout=timeout, env={"TRACE": str(path)}, dfs=True,
+                     heap=heap, coverage=True)
+        chk.add_tlc(f"{tag}-coverage", r, count_states=False)
+        if r.violated:
+            raise vlib.ToolError(f"{module} did not consume all records of {path}:\n{r.out[-2500:]}")
+        chk.require_coverage(r, ["Next"])
     for n, part in enumerate(vlib.chunks(records, chunk)):
         path = chk.work / f"{tag}-{n}.ndjson"
         vlib.write_ndjson(path, part)
         cfg = chk.work / f"{Path(module).stem}-{tag}.cfg"
         cfg.write_text(projlib.cfg_from_consts(consts or {}, "POSTCONDITION AllConsumed\n"))
         r = vlib.tlc(projlib.SP / module, cfg, workers=1, timeout=timeout, env={"TRACE": str(path)}, dfs=True,
-                     heap=heap, coverage=True)
+                     heap=heap)
         chk.add_tlc(f"{tag}-{n}", r, count_states=False)
         if r.violated:
             raise vlib.ToolError(f"{module} did not consume all records of {path}:\n{r.out[-2500:]}")
-        chk.require_coverage(r, ["Next"])
         printed += r.printed
         if count:
             chk.cov["traces_validated_against_impl"] += len(part)
@@ -495,11 +508,15 @@ def prog_size(prog) -> int:
     return len(json.dumps(prog))
 
 
-def minimise(prog: dict, still_bad, max_rounds=40) -> dict:
+def minimise(prog: dict, still_bad, max_rounds=40, deadline: float | None = None) -> dict:
     """greedy: repeatedly replace prog by its smallest one-step reduction for which still_bad holds.
-    still_bad(list of programs) -> list of bool (batched: one compile run + one TLC run per round)."""
+    still_bad(list of programs) -> list of bool (batched: one compile run + one TLC run per round).
+    Stops at `deadline` (time.time() value) with the best program so far."""
+    import time
     cur = prog
     for _ in range(max_rounds):
+        if deadline is not None and time.time() > deadline:
+            break
         cands = reductions(cur)
         if not cands:
             break
